@@ -1,11 +1,12 @@
 (* C10 -- Ready is granted only for a correct upgrade reply to a well-formed request.  Statements only.
-   SHA-1 and base64 are outside the model: [accept] stands for base64(sha1(key ++ GUID)) of the key this connection sent
-   and is computed by the harness from the request actually written. *)
+   The decision theorems are stated for any expected value [accept]; the theorems at the end instantiate it with what
+   lomond computes, base64(sha1(base64(16 random bytes) ++ GUID)), using the model's own SHA-1 and base64 (Digest.v),
+   which every run compares with hashlib/base64 and with the real WebSocket object (family C10:digest). *)
 From Coq Require Import String.
-From Coq Require Import List NArith.
+From Coq Require Import List NArith Arith ZArith.
 From Coq.Strings Require Import Byte.
-From Model Require Import Bytes Parser FrameParser Response Handshake Conn.
-From Proofs Require Import HandshakeFacts GenTie ShapeFacts ReadyFacts DeliveryFacts RejectFacts.
+From Model Require Import Bytes Parser FrameParser Response Handshake Conn Digest Url.
+From Proofs Require Import HandshakeFacts GenTie ShapeFacts ReadyFacts DeliveryFacts RejectFacts DigestFacts DigestRun UrlFacts.
 Import ListNotations.
 Open Scope N_scope.
 
@@ -81,3 +82,121 @@ Example C10_reply_spellings :
   on_response acc (parse_response (str "HTTP/1.1 101 OK"%string ++ CRLF ++ str "Upgrade: websocket"%string ++ CRLF ++
                                    str "Sec-WebSocket-Accept: AAAAAAAAAAAAAAAAAAAAAAAAAAA="%string ++ CRLFCRLF)) = HRejected.
 Proof. vm_compute. repeat split; reflexivity. Qed.
+
+(* ---------- the digest inside the model ---------- *)
+(* base64 as the model (and, by the correspondence check, base64.b64encode) computes it can be decoded again: distinct
+   random bytes give distinct keys; the text has the RFC 4648 length and alphabet, so neither a key nor an accept value
+   can contain CR, LF, blank, colon or comma and break the header line it is written into *)
+Theorem C10_base64_roundtrip : forall l, b64_decode (b64_encode l) = Some l.
+Proof. exact b64_decode_encode. Qed.
+Print Assumptions C10_base64_roundtrip.
+
+Definition header_safe (c : byte) : Prop := c <> CR /\ c <> LF /\ c <> SP /\ c <> HT /\ c <> COLON /\ c <> x2c.
+
+Theorem C10_key_shape : forall rand16, List.length rand16 = 16%nat ->
+  List.length (make_key rand16) = 24%nat /\
+  Forall header_safe (make_key rand16) /\
+  (forall r', make_key rand16 = make_key r' -> rand16 = r').
+Proof.
+  intros r H. split; [apply make_key_length; exact H|]. split; [apply make_key_header_safe|apply make_key_inj].
+Qed.
+Print Assumptions C10_key_shape.
+
+Theorem C10_accept_shape : forall key,
+  List.length (accept_of key) = 28%nat /\ List.length (sha1 (key ++ WS_GUID)) = 20%nat /\
+  Forall header_safe (accept_of key).
+Proof. intros k. split; [apply accept_of_length|]. split; [apply sha1_length|apply accept_of_header_safe]. Qed.
+Print Assumptions C10_accept_shape.
+
+(* SHA-1's padding is to whole 64-byte blocks, at most one block more than needed, and keeps the message *)
+Theorem C10_sha1_padding : forall m,
+  (List.length (sha1_pad m) mod 64 = 0)%nat /\
+  (List.length m + 9 <= List.length (sha1_pad m) < List.length m + 9 + 64)%nat /\
+  firstn (List.length m) (sha1_pad m) = m.
+Proof. intros m. destruct (sha1_pad_length m) as [A B]. split; [exact A|]. split; [exact B|apply sha1_pad_prefix]. Qed.
+
+(* the GUID of the model is the constant of the running code (regenerated) *)
+Theorem C10_guid : map n2b Gen.GenConst.impl_ws_key = WS_GUID.
+Proof. exact ws_guid_is_impl. Qed.
+
+(* whole attempt, any application strategy, any masking keys, write faults and continuation: when the first read
+   delivers a complete reply block and the run shows a Ready event, the reply has status 101, Upgrade: websocket and an
+   accept value equal -- up to letter case, KF-D -- to base64(sha1(base64(rand16) ++ GUID)) for the random bytes of THIS
+   attempt, whose key the request carries *)
+Theorem C10_ready_only_for_the_digest : forall cf app keys wf zt ct dt0 reply rest rand16,
+  c_accept cf = accept_of (make_key rand16) ->
+  reply_block reply ->
+  has_ready (evs (k_tr (run cf app (init keys wf zt ct) CnOk (StRead dt0 (RData reply) :: rest)))) ->
+  r_status (parse_response reply) = Some 101 /\
+  (exists u, resp_get (parse_response reply) (str "upgrade"%string) = Some u /\ lower_s u = str "websocket"%string) /\
+  (exists a, resp_get (parse_response reply) (str "sec-websocket-accept"%string) = Some a /\
+             lower_s a = lower_s (b64_encode (sha1 (b64_encode rand16 ++ WS_GUID)))).
+Proof. exact ready_needs_digest. Qed.
+Print Assumptions C10_ready_only_for_the_digest.
+
+Theorem C10_request_carries_the_key : forall q rand16, q_key q = make_key rand16 ->
+  In (str "Sec-WebSocket-Key"%string, b64_encode rand16) (request_headers q).
+Proof. exact request_carries_key. Qed.
+
+(* RFC 6455 section 1.3's worked example, and a run that does become Ready for the digest of its key *)
+Example C10_rfc_sample : accept_of (str "dGhlIHNhbXBsZSBub25jZQ=="%string) = str "s3pPLMBiTxaQ9kYGzzhZRbK+xOo="%string.
+Proof. vm_compute. reflexivity. Qed.
+Example C10_digest_nonvacuous :
+  let r16 := str "the sample nonce"%string in
+  let cf := {| c_poll := 5120; c_ping_rate := 0; c_ping_timeout := None; c_auto_pong := true; c_close_timeout := None;
+               c_accept := accept_of (make_key r16) |} in
+  let reply := str "HTTP/1.1 101 Switching Protocols"%string ++ CRLF ++ str "Upgrade: websocket"%string ++ CRLF ++
+               str "Sec-WebSocket-Accept: s3pPLMBiTxaQ9kYGzzhZRbK+xOo="%string ++ CRLFCRLF in
+  make_key r16 = str "dGhlIHNhbXBsZSBub25jZQ=="%string /\
+  In (EvReady None false) (evs (k_tr (run cf (fun _ => []) (init [] [] [] []) CnOk [StRead 0%Z (RData reply)]))).
+Proof. vm_compute. split; [reflexivity|]. tauto. Qed.
+
+(* ---------- the URL inside the model ---------- *)
+(* a URL rendered from components that are free of the delimiters of the positions after them (scheme, optional user
+   name and password, host, optional port up to 65535, path, optional query, optional fragment) is read back as exactly
+   those components, scheme and host in lower case, the fragment dropped *)
+Theorem C10_url_components : forall p, wf p -> parse_url (render p) = Some (expected p).
+Proof. exact parse_render. Qed.
+Print Assumptions C10_url_components.
+
+(* ... hence the request of a WebSocket constructed from that URL: the request line carries path-or-"/" plus "?query"
+   (never the fragment, never the authority), the Host header the lower-cased host and the explicit port or the scheme's
+   default, and the key is the one handed in *)
+Theorem C10_request_of_url : forall p key agent custom protos compress version, wf p ->
+  exists u, parse_url (render p) = Some u /\
+    let q := req_of_url u key agent custom protos compress version in
+    let resource := (match p_path p with [] => [SLASH] | x => x end) ++
+                    (match p_query p with Some (q0 :: q) => QMARK :: q0 :: q | _ => [] end) in
+    let port := effective_port (p_port p) (bytes_eqb (lower_s (p_scheme p)) (str "wss"%string)) in
+    build_request q = join CRLF ((str "GET "%string ++ resource ++ str " HTTP/1.1"%string)
+                                 :: map header_line (request_headers q) ++ [CRLF]) /\
+    In (str "Host"%string, lower_s (p_host p) ++ str ":"%string ++ decimal port) (request_headers q) /\
+    In (str "Sec-WebSocket-Key"%string, key) (request_headers q).
+Proof. exact request_of_rendered_url. Qed.
+Print Assumptions C10_request_of_url.
+
+Theorem C10_fragment_never_sent : forall p f, wf p -> parse_url (render p) =
+  parse_url (render {| p_scheme := p_scheme p; p_userinfo := p_userinfo p; p_host := p_host p; p_port := p_port p;
+                       p_path := p_path p; p_query := p_query p; p_fragment := f |}).
+Proof. exact fragment_irrelevant. Qed.
+
+Example C10_url_nonvacuous :
+  let p := {| p_scheme := str "WSS"%string; p_userinfo := Some (str "user"%string, Some (str "pw"%string));
+              p_host := str "Example.Test"%string; p_port := Some 8443; p_path := str "/chat;v=1"%string;
+              p_query := Some (str "room=1"%string); p_fragment := Some (str "top"%string) |} in
+  render p = str "WSS://user:pw@Example.Test:8443/chat;v=1?room=1#top"%string /\
+  (exists u, parse_url (render p) = Some u /\ u_host u = str "example.test"%string /\ ws_port u = 8443 /\
+             ws_secure u = true /\ ws_resource u = str "/chat;v=1?room=1"%string).
+Proof. vm_compute. split; [reflexivity|]. eexists. repeat split; reflexivity. Qed.
+Example C10_url_wf_example :
+  wf {| p_scheme := str "ws"%string; p_userinfo := None; p_host := str "example.test"%string; p_port := None;
+        p_path := []; p_query := Some (str "x=1"%string); p_fragment := None |}.
+Proof.
+  constructor; cbn.
+  - eexists _, _. repeat split; reflexivity.
+  - exact I.
+  - unfold free_of. repeat constructor; cbn; intros K; repeat (destruct K as [K|K]; [discriminate K|]); exact K.
+  - exact I.
+  - split; [left; reflexivity|constructor].
+  - unfold free_of. repeat constructor; cbn; intros K; repeat (destruct K as [K|K]; [discriminate K|]); exact K.
+Qed.
